@@ -745,6 +745,7 @@ async fn run_close_case(lines: &[String], ex: &mut Exec) -> Vec<String> {
         t.stream_receive_window(VarInt::from_u64(srw).unwrap());
         t.max_concurrent_uni_streams(VarInt::from_u64(uni).unwrap());
         t.max_concurrent_bidi_streams(VarInt::from_u64(bi).unwrap());
+        t.datagram_send_buffer_size(kvn(w0, "dgsb", 1_000_000) as usize);
         t
     };
     // the server's limits bound what the CLIENT may open and vice versa
@@ -1254,6 +1255,69 @@ async fn run_close_case(lines: &[String], ex: &mut Exec) -> Vec<String> {
                 }
                 out[i] = format!("done=[{}]", done.join(","));
             }
+            Some("syncclose") => {
+                // `n` send_datagram_wait futures blocked on a full datagram buffer, each with its own counting
+                // waker, polled by hand; then `Connection::close` WITHOUT yielding to the runtime in between:
+                // every waker must have been woken exactly once and every future must now fail
+                let (Some(side), Some(cnt)) =
+                    (w.get(2).and_then(|x| side_of(x)), w.get(3).and_then(|x| x.parse::<usize>().ok()))
+                else {
+                    out[i] = "bad-op".into();
+                    continue;
+                };
+                let Some(conn) = sides[side].conn.clone() else {
+                    out[i] = "bad-op".into();
+                    continue;
+                };
+                struct Count(std::sync::atomic::AtomicUsize);
+                impl std::task::Wake for Count {
+                    fn wake(self: Arc<Self>) {
+                        self.0.fetch_add(1, std::sync::atomic::Ordering::SeqCst);
+                    }
+                }
+                let fill = conn.send_datagram(Bytes::from(vec![7u8; 600]));
+                let counters: Vec<Arc<Count>> =
+                    (0..cnt).map(|_| Arc::new(Count(std::sync::atomic::AtomicUsize::new(0)))).collect();
+                let mut futs: Vec<Pin<Box<dyn Future<Output = Result<(), compio_quic::SendDatagramError>>>>> = (0..cnt)
+                    .map(|_| {
+                        let c = conn.clone();
+                        Box::pin(async move { c.send_datagram_wait(Bytes::from(vec![8u8; 600])).await }) as Pin<Box<dyn Future<Output = _>>>
+                    })
+                    .collect();
+                let mut pending = 0;
+                for (f, c) in futs.iter_mut().zip(&counters) {
+                    let waker = Waker::from(c.clone());
+                    if f.as_mut().poll(&mut Context::from_waker(&waker)).is_pending() {
+                        pending += 1;
+                    }
+                }
+                conn.close(3u32.into(), b"bye");
+                let woken: Vec<String> =
+                    counters.iter().map(|c| c.0.load(std::sync::atomic::Ordering::SeqCst).to_string()).collect();
+                let mut results = vec![];
+                for (f, c) in futs.iter_mut().zip(&counters) {
+                    let waker = Waker::from(c.clone());
+                    results.push(match f.as_mut().poll(&mut Context::from_waker(&waker)) {
+                        Poll::Pending => "pending".to_string(),
+                        Poll::Ready(Ok(())) => "ok".to_string(),
+                        Poll::Ready(Err(compio_quic::SendDatagramError::ConnectionLost(e))) => format!("err:{}", conn_err(&e)),
+                        Poll::Ready(Err(e)) => format!("err:{e}"),
+                    });
+                }
+                if fill.is_err() {
+                    out[i] = format!("error:fill:{:?}", fill.err());
+                    continue;
+                }
+                for (j, (wk, r)) in woken.iter().zip(&results).enumerate() {
+                    if wk != "1" || r == "pending" {
+                        fails.push((
+                            "C16:stranded-future".into(),
+                            format!("kind=send_datagram_wait side={side} after=close:sync: future {j} woken {wk} times, re-poll {r}"),
+                        ));
+                    }
+                }
+                out[i] = format!("pending={pending} woken=[{}] results=[{}]", woken.join(","), results.join(","));
+            }
             Some("close") => {
                 let (Some(side), Some(how)) = (w.get(2).and_then(|x| side_of(x)), w.get(3).copied()) else {
                     out[i] = "bad-op".into();
@@ -1425,7 +1489,7 @@ fn gen_transfer(rng: &mut Rng, idx: usize, thorough: bool) -> Case {
     // tiny windows make every byte a round trip: keep those payloads short
     // (an unacknowledged-data window is only released by delayed ACKs: ~25 ms per window)
     let cap = (srw.min(rw) as usize * 100).min(if sw < 50_000 { (sw as usize * 4).min(30_000) } else { usize::MAX });
-    let mut budget: usize = if thorough { 500_000 } else { 200_000 };
+    let mut budget: usize = if thorough { 500_000 } else { 150_000 };
     for _ in 0..nstreams {
         let dir = if rng.chance(1, 2) { "c2s" } else { "s2c" };
         let (mut len, w, r, mut slow) = gen_stream_params(rng, thorough && nstreams <= 4);
@@ -1714,6 +1778,9 @@ fn dedicated() -> Vec<Case> {
             "f162-closed-twice",
             &["C conn cbi=4 cuni=4 sbi=4 suni=4", "C pend c closed", "C pend c closed", "C close s conn"],
         ),
+        // blocked datagram senders at a synchronous close
+        c("dgram-senders-at-close", &["C conn cbi=0 cuni=0 sbi=0 suni=0 dgsb=100", "C syncclose c 3"]),
+        c("dgram-sender-at-close-server", &["C conn cbi=0 cuni=0 sbi=0 suni=0 dgsb=100", "C syncclose s 1"]),
         // `Stopped` must wake the `stopped` AND the `writable` waiter … of two different streams here
         c(
             "stop-wakes-both",
@@ -1733,7 +1800,7 @@ fn dedicated() -> Vec<Case> {
 
 fn generate(tier: &str, rng: &mut Rng) -> Vec<Case> {
     let thorough = tier == "thorough";
-    let (nt, nc) = if thorough { (2000, 4000) } else { (200, 450) };
+    let (nt, nc) = if thorough { (2000, 4000) } else { (160, 400) };
     let mut cases = dedicated();
     for i in 0..nt.max(nc) {
         if i < nt {
@@ -1741,6 +1808,16 @@ fn generate(tier: &str, rng: &mut Rng) -> Vec<Case> {
         }
         if i < nc {
             cases.push(gen_close(&mut rng.fork(), i));
+        }
+        if i < nc / 20 {
+            let mut r = rng.fork();
+            cases.push(Case {
+                name: format!("d{i}"),
+                lines: vec![
+                    "C conn cbi=0 cuni=0 sbi=0 suni=0 dgsb=100".into(),
+                    format!("C syncclose {} {}", if r.chance(1, 2) { "c" } else { "s" }, r.range(1, 6)),
+                ],
+            });
         }
     }
     cases
